@@ -327,6 +327,42 @@ func compileSmall(t *Term, sym string) (func(int64) int64, bool) {
 	return nil, false
 }
 
+// ruleDecodePipeline: DecodeSecret is one strict base32 decode of the upper-cased (ASCII only), trimmed,
+// re-padded text on every path, and returns the decoder's error (shared by C07 and, as the reading side of
+// "a generated secret decodes to the random bytes", by C08).
+func ruleDecodePipeline(c *Check, w *World, tb *TB, dec *ssa.Function, r1, r3 string) {
+	fn := FuncName(dec)
+	pos := w.Pos(dec.Pos())
+	res := tb.Results(dec, nil, nil, 0)
+	param := fmt.Sprintf("param(%s#0)", fn)
+	if len(res) != 2 {
+		c.Unk(r1, fn, "decode-pipeline", "DecodeSecret does not return (bytes, error)", pos)
+	} else {
+		r0 := res[0]
+		ok := r0.Op == "extract" && r0.Sym == "0" && r0.Args[0].Op == "call" && r0.Args[0].Sym == "(*encoding/base32.Encoding).DecodeString" && len(r0.Args[0].Args) == 2
+		if !ok {
+			c.Unk(r1, fn, "decode-pipeline", "the result is not the first result of one base32 DecodeString call on every path: "+clip(r0.String(), 240), pos)
+		} else {
+			call := r0.Args[0]
+			c.Decide(call.Args[0].String() == "gval(base32.StdEncoding)", r1, fn, "decoder-identity", "the strict, padded standard alphabet decoder (base32.StdEncoding) is used", "the decoder is "+clip(call.Args[0].String(), 160)+", not base32.StdEncoding (a different alphabet or padding mode accepts other text / other bytes)", pos)
+			tb.notes = map[string]bool{}
+			up, tr, pd, why := analyseDecodeArg(tb, call.Args[1], param)
+			if why != "" {
+				c.Unk(r1, fn, "normalisation", why, pos)
+			} else {
+				c.Decide(up, r1, fn, "upper-case", "the whole text is upper-cased before decoding", "the text is not upper-cased: lower- and mixed-case spellings are rejected", pos)
+				if up {
+					c.Decide(!tb.notes["unicode-upper"], r1, fn, "ascii-case-folding", "only the ASCII letters a-z are folded (the folding function maps every other code point to itself, checked over all 0..0x10FFFF)", "strings.ToUpper folds non-ASCII letters onto the alphabet ('ſ' U+017F → 'S', 'ı' U+0131 → 'I'): text outside the base32 alphabet such as \"ſſſſſſſſ\" is accepted and decoded as \"SSSSSSSS\"", pos)
+				}
+				c.Decide(tr, r1, fn, "trim-space", "surrounding white space is trimmed (strings.TrimSpace)", "surrounding white space is not trimmed", pos)
+				c.Decide(pd, r1, fn, "re-padding", "the text is re-padded on the right to a multiple of 8 from its trimmed length", "unpadded spellings are not re-padded to a multiple of 8", pos)
+			}
+			r1 := res[1]
+			c.Decide(r1.String() == "extract(1; "+call.String()+")", r3, fn, "decode-error-returned", "the decoder's error is returned unchanged", "the error result is "+clip(r1.String(), 160)+", not the decoder's error", pos)
+		}
+	}
+}
+
 func runC07(c *Check, w *World) {
 	tb := NewTB(w)
 	ef := NewEffects(tb)
@@ -335,36 +371,7 @@ func runC07(c *Check, w *World) {
 		c.Fatal("anchor not found: DecodeSecret")
 		return
 	}
-	fn := FuncName(dec)
-	pos := w.Pos(dec.Pos())
-	res := tb.Results(dec, nil, nil, 0)
-	param := fmt.Sprintf("param(%s#0)", fn)
-	if len(res) != 2 {
-		c.Unk("R07.1", fn, "decode-pipeline", "DecodeSecret does not return (bytes, error)", pos)
-	} else {
-		r0 := res[0]
-		ok := r0.Op == "extract" && r0.Sym == "0" && r0.Args[0].Op == "call" && r0.Args[0].Sym == "(*encoding/base32.Encoding).DecodeString" && len(r0.Args[0].Args) == 2
-		if !ok {
-			c.Unk("R07.1", fn, "decode-pipeline", "the result is not the first result of one base32 DecodeString call on every path: "+clip(r0.String(), 240), pos)
-		} else {
-			call := r0.Args[0]
-			c.Decide(call.Args[0].String() == "gval(base32.StdEncoding)", "R07.1", fn, "decoder-identity", "the strict, padded standard alphabet decoder (base32.StdEncoding) is used", "the decoder is "+clip(call.Args[0].String(), 160)+", not base32.StdEncoding (a different alphabet or padding mode accepts other text / other bytes)", pos)
-			tb.notes = map[string]bool{}
-			up, tr, pd, why := analyseDecodeArg(tb, call.Args[1], param)
-			if why != "" {
-				c.Unk("R07.1", fn, "normalisation", why, pos)
-			} else {
-				c.Decide(up, "R07.1", fn, "upper-case", "the whole text is upper-cased before decoding", "the text is not upper-cased: lower- and mixed-case spellings are rejected", pos)
-				if up {
-					c.Decide(!tb.notes["unicode-upper"], "R07.1", fn, "ascii-case-folding", "only the ASCII letters a-z are folded (the folding function maps every other code point to itself, checked over all 0..0x10FFFF)", "strings.ToUpper folds non-ASCII letters onto the alphabet ('ſ' U+017F → 'S', 'ı' U+0131 → 'I'): text outside the base32 alphabet such as \"ſſſſſſſſ\" is accepted and decoded as \"SSSSSSSS\"", pos)
-				}
-				c.Decide(tr, "R07.1", fn, "trim-space", "surrounding white space is trimmed (strings.TrimSpace)", "surrounding white space is not trimmed", pos)
-				c.Decide(pd, "R07.1", fn, "re-padding", "the text is re-padded on the right to a multiple of 8 from its trimmed length", "unpadded spellings are not re-padded to a multiple of 8", pos)
-			}
-			r1 := res[1]
-			c.Decide(r1.String() == "extract(1; "+call.String()+")", "R07.3", fn, "decode-error-returned", "the decoder's error is returned unchanged", "the error result is "+clip(r1.String(), 160)+", not the decoder's error", pos)
-		}
-	}
+	ruleDecodePipeline(c, w, tb, dec, "R07.1", "R07.3")
 	// R07.2: every entry point keys the HMAC with DecodeSecret(secret)
 	var entries []*ssa.Function
 	for _, f := range w.ExportedAPI() {
